@@ -158,3 +158,50 @@ reg("C06", [
     "pointer = 14-bit offset strictly below the pointer's own position, 01/10 label types rejected, expanded name <= 255 octets)",
     "paths that reach the loop bound are reported as bound hits and lie outside the claim",
 ])
+
+reg("C06", [
+    M("C06", "contract", "name_step",
+      "inductive: any buffer length <= 65535, any iteration count; loop-head state symbolic under Inv "
+      "(pos<=len, pp<=len, name_size<=318, pos0<=pos, !following => pos==pp)",
+      ["<Name as WireFormat>::parse (loop body from the loop head, and entry->loop head)"]),
+], [
+    "induction over loop iterations is the meta-argument: base + step + exit obligations are each decided by z3",
+])
+
+reg("C01", [
+    M("C01", "name.step", "name_step",
+      "inductive: any buffer length <= 65535, any iteration count: one iteration from any Inv-state is panic-free, "
+      "re-establishes Inv and decreases the variant (318-name_size, pointer_position); <=1 label pushed per iteration",
+      ["<Name as WireFormat>::parse"]),
+    M("C01", "name.run", "name_parse",
+      "bounded run from the entry: every buffer length 0..6/0..8, all bytes and start offsets symbolic, loop bound 8/12",
+      ["<Name as WireFormat>::parse"], params={'mode': 'nopanic'}),
+], [
+    "Name::parse termination: the variant bounds iterations by 319 * (len+1); linear-time claim = this variant, not a measurement",
+])
+
+reg("C01", [
+    M("C01", "rdata.loops", "rdata_bytes",
+      "TXT, OPT, NSEC, SVCB, HTTPS parsers (real Name::parse inside): every buffer length 1..6 (quick) / 1..9 (thorough), "
+      "all bytes and cursor symbolic, loop bound 2L+4",
+      ["<TXT|OPT|NSEC|SVCB|HTTPS as WireFormat>::parse", "CharacterString::parse", "Name::parse", "BTreeMap::insert (model)"]),
+], [])
+
+_RR_FUNCS = ["<ResourceRecord as WireFormat>::{write_to,parse,len}", "ResourceRecord::write_common", "<RData as WireFormat>::{write_to,parse,len}",
+             "parse_rdata", "<T as WireFormat>::{write_to,parse,len} for each of the 41 typed variants + NULL",
+             "<Name as WireFormat>::{parse,write_to,len}", "<CharacterString as WireFormat>::{parse,write_to,len}"]
+_RR_BOUNDS = ("per record type: all integer/byte field values symbolic (full width), 5 classes x cache-flush bit x TTL symbolic; "
+              "shapes: names {root,[1],[2,1]} (+[3,2,1],[63] thorough), strings {0,2} (+5,255), opaque tails {0,3} (+1,9), "
+              "0-2 (3) list entries for TXT/OPT/NSEC/SVCB, all 4 IPSECKEY gateway kinds")
+_RR_ASSUME = [
+    "validity predicates assumed (and nothing else): LOC version = 0 (write_to refuses others); NSAP aa < 2^24 and id < 2^48 "
+    "(the wire format carries 24/48 bits); NSEC windows and SVCB keys strictly increasing (RFC order); TXT has >= 1 "
+    "character-string (RFC 1035 3.3.14; the library writes an empty TXT as one empty string); OPT TTL carries its VERSION",
+    "the reference encoding is produced by spec/rdata_schema.py + mirsym/specs/valuegen.py, written from the RFCs",
+]
+reg("C02", [M("C02", "rdata", "rr_roundtrip", _RR_BOUNDS, _RR_FUNCS)], _RR_ASSUME + [
+    "this obligation decides the per-record part of C02 (owner, type, class, TTL, cache-flush, every RDATA field)"])
+reg("C04", [M("C04", "len", "rr_roundtrip", _RR_BOUNDS, _RR_FUNCS)], _RR_ASSUME + [
+    "this obligation decides RDLENGTH == RDATA bytes written and len() == bytes written for every record type"])
+reg("C10", [M("C10", "encdec", "rr_roundtrip", _RR_BOUNDS, _RR_FUNCS)], _RR_ASSUME + [
+    "NSAP is checked in the library's documented interpretation (20-byte ATM format); ISDN requires both strings (struct has no optional sa)"])
